@@ -1330,6 +1330,25 @@ impl<'t, C: Ws> World<'t, C> {
                         Ok(d) => same_as_clone!(d, "from_reversed_binary_iter"),
                         Err(()) => if ctx.any(&["C04", "C08"]) { viol!(ctx, ctx.prop, "binary-iter-import-refused", "{:x?}", tail(&words)) },
                     }
+                    // the same payload as the first frame of a longer, legally non-fused source
+                    // (yields `None` at the frame boundary, then the next frame's words): the
+                    // constructor's view of the end of the data must be final
+                    {
+                        let frame: Vec<C::W> = payload.iter().rev().cloned().collect();
+                        let next_frame: Vec<C::W> = (0..4u64).map(|i| w_from::<C::W>(0xA5A5_5A5A_C3C3_3C3Cu64.rotate_left(7 * i as u32) | 1)).collect();
+                        let mut i = 0usize;
+                        let mut gap_done = false;
+                        let src = std::iter::from_fn(move || {
+                            if i == frame.len() && !gap_done { gap_done = true; return None; }
+                            let k = i; i += 1;
+                            if k < frame.len() { Some(Ok::<C::W, ()>(frame[k])) } else { next_frame.get(k - frame.len()).cloned().map(Ok) }
+                        });
+                        ctx.stats.hit("probe-binary-iter-two-frames");
+                        match AnsCoder::<C::W, C::S, _>::from_reversed_binary_iter(src) {
+                            Ok(d) => same_as_clone!(d, "from_reversed_binary_iter(first frame of a non-fused source)"),
+                            Err(()) => if ctx.any(&["C04", "C08"]) { viol!(ctx, ctx.prop, "binary-iter-import-refused", "{:x?}", tail(&words)) },
+                        }
+                    }
                 }
             }
             View::CloneDrop => {
